@@ -161,8 +161,8 @@ def placement_exprs(repo=None):
     return m, wf, key, rf
 
 
-def _writer_forms(m, wf, key):
-    """canonical forms of the file timestamp in the file name and of the sub-directory timestamp, in terms of leaf `k`"""
+def _writer_loop(m, wf):
+    """(the loop over the groupby result, name of the per-group file index)"""
     loop = None
     for n in ast.walk(wf):
         if isinstance(n, ast.For) and any(isinstance(c, ast.Call) and pyfront.call_name(c) in ("itertools.groupby", "groupby")
@@ -170,14 +170,20 @@ def _writer_forms(m, wf, key):
             loop = n
     if loop is None or not isinstance(loop.target, ast.Tuple) or not isinstance(loop.target.elts[0], ast.Name):
         raise AnalysisError("%s: loop over the groupby result not recognised" % m.qualname)
-    idx = loop.target.elts[0].id
+    return loop, loop.target.elts[0].id
+
+
+def _writer_forms(m, wf, key):
+    """canonical forms of the file timestamp in the file name and of the sub-directory timestamp, in terms of leaf `k`"""
+    loop, idx = _writer_loop(m, wf)
     pre = [x for x in wf.body]
     env = pysym.seq_env(pre, stop=loop)
     kbody = pysym.subst(key.body, env)
     kbody = pysym.subst(kbody, {key.arg: ast.Name("k", ast.Load())})
-    env2 = dict(env)
+    env2 = pysym.Env(env)
+    env2.branch_dependent = getattr(env, 'branch_dependent', frozenset())
     env2[idx] = kbody
-    pysym.seq_env(loop.body, env2)
+    env2 = pysym.seq_env(loop.body, env2)
     fold = cfold.Folder(getattr(m.module, "_repo_hint", None)) if False else None
     fmt = []
     for n in ast.walk(loop):
@@ -193,11 +199,11 @@ def _writer_forms(m, wf, key):
     if len(fmt) != 1 or not isinstance(fmt[0].right, ast.Tuple) or len(fmt[0].right.elts) != 2 or len(ts) != 1:
         raise AnalysisError("%s: file-name format / fromtimestamp not found exactly once" % m.qualname)
     # evaluate the two arguments at their program points
-    envf = dict(env); envf[idx] = kbody
-    pysym.seq_env(loop.body, envf, stop=m.enclosing(fmt[0], (ast.stmt,)))
+    envf = pysym.Env(env); envf.branch_dependent = getattr(env, 'branch_dependent', frozenset()); envf[idx] = kbody
+    envf = pysym.seq_env(loop.body, envf, stop=m.enclosing(fmt[0], (ast.stmt,)))
     file_c = pysym.canon(pysym.subst(fmt[0].right.elts[1], envf))
-    envs = dict(env); envs[idx] = kbody
-    pysym.seq_env(loop.body, envs, stop=m.enclosing(ts[0], (ast.stmt,)))
+    envs = pysym.Env(env); envs.branch_dependent = getattr(env, 'branch_dependent', frozenset()); envs[idx] = kbody
+    envs = pysym.seq_env(loop.body, envs, stop=m.enclosing(ts[0], (ast.stmt,)))
     sub_c = pysym.canon(pysym.subst(ts[0].args[0], envs))
     return loop, idx, file_c, sub_c, fmt[0], ts[0]
 
@@ -218,6 +224,9 @@ def _reader_forms(m, rf):
         for name, val in env.items():
             c = pysym.canon(val)
             if p in pysym.leaves(c) and name in used:
+                if name in getattr(env, "branch_dependent", ()):
+                    raise AnalysisError("%s._get_file_list: `%s` (derived from `%s`, used by the listing loop) depends on which branch ran; "
+                                        "the straight-line placement forms do not decide it" % (R, name, p))
                 forms[name] = pysym.rename_leaf(c, p, "k")
         out[p] = forms
     return params[:2], loops[0], out
@@ -403,7 +412,7 @@ def r4_subdir_per_file(repo=None):
         return _no_key_violation(r, e)
     q = m.qualname
     g = m.cfg(q)
-    loop, idx, file_c, sub_c, fmt, ts = _writer_forms(m, wf, key)
+    loop, idx = _writer_loop(m, wf)
     heads = [n for n in g.nodes if n.kind == "cond" and n.ast is loop]
     opens = [n for n in g.nodes if any(pyfront.call_name(c) == "h5py.File" for c in pyfront.node_calls(n))]
     if len(heads) != 1 or len(opens) != 1:
